@@ -470,6 +470,12 @@ func (fd *Client) BatchWriteItem(ctx context.Context, input *dynamodb.BatchWrite
 		return &dynamodb.BatchWriteItemOutput{}, err
 	}
 
+	// the whole batch is validated before any request is applied: an invalid request must not
+	// leave the requests that precede it applied
+	if err := fd.validateBatchWriteRequests(input); err != nil {
+		return &dynamodb.BatchWriteItemOutput{}, err
+	}
+
 	unprocessed := map[string][]types.WriteRequest{}
 
 	for table, reqs := range input.RequestItems {
@@ -566,6 +572,32 @@ func validateBatchWriteItemInput(input *dynamodb.BatchWriteItemInput) error {
 
 	if count > batchRequestsLimit {
 		return &smithy.GenericAPIError{Code: "ValidationException", Message: "Too many items requested for the BatchWriteItem call"}
+	}
+
+	return nil
+}
+
+func (fd *Client) validateBatchWriteRequests(input *dynamodb.BatchWriteItemInput) error {
+	fd.mu.Lock()
+	defer fd.mu.Unlock()
+
+	for tableName, reqs := range input.RequestItems {
+		table, err := fd.getTable(tableName)
+		if err != nil {
+			return mapKnownError(err)
+		}
+
+		for _, req := range reqs {
+			if req.PutRequest != nil {
+				err = table.ValidatePut(mapDynamoToTypesMapItem(req.PutRequest.Item))
+			} else {
+				err = table.ValidateKey(mapDynamoToTypesMapItem(req.DeleteRequest.Key))
+			}
+
+			if err != nil {
+				return mapKnownError(err)
+			}
+		}
 	}
 
 	return nil
